@@ -21,6 +21,9 @@ CHECKS = {
  "C20": dict(tech="static analysis: must-pass path queries over success returns (ALPN, record, exporter, cookie and algorithm gates), ordering rule for the critical bit, who-may-call and constant-argument rules for the TLS exporter, store-before-use and reset-on-failure path rules on SSA",
    text="Structural necessary conditions decided exactly for their clause: ALPN gate and offer; exchangeKeys succeeds only through all five success conditions per transport; ReadData: nil only at end-of-message, error record always fails, unknown record fails iff the critical bit (read before masking) was set, non-critical unknown consumed by a full BodyLen read; single key derivation with RFC 8915 constants given as fresh constant arrays, on the session the records were exchanged on; dial defaults replace f.data before records are read; every failed exchange clears f.data; re-key only when the pool is empty; clients address the fetched server/port; server message kinds, 8 cookies under provider.Current() carrying the exported keys in their own direction. TLS and exporter values themselves are trusted.",
    ref="DESIGN.md §4 C20"),
+ "C16": dict(tech="static analysis: blocking-operation audit, select-arm path queries, send/receive counting rules and guard must-pass queries on SSA",
+   text="Structural necessary conditions decided exactly for their clause: the collector's only blocking operation is one select with a <-ctx.Done() arm that leaves the loop, reference clocks are queried only from spawned goroutines, the round's context is WithTimeout(cfg.SyncTimeout); ms[j]=m only under m.Error==nil && j!=len(ms) with j++ and j returned; every received result is counted exactly once, every worker sends exactly once and never closes, one worker per clock, the drain receives len(ms)-i times and is started on every exit; CAS 0->1 guard with panicking failure arm and deferred 1->0. Scheduling and real time are not decided.",
+   ref="DESIGN.md §4 C16"),
 }
 NA = {
  "C04": "all clauses are value arithmetic over time.Time/uint32 (truncation direction, era unfolding, order preservation); no structural or finite-domain clause; matching the constants would be a frozen-fragment proxy",
